@@ -56,9 +56,14 @@
 //     entries);
 //   - in symbolic mode trace entries also show arguments that are tokens
 //     (`toString` of an `Option String`), translated structs (`reprStr`), values
-//     read through a pointer ("<nil-deref>" if it is nil) and `x.M()` on an
-//     abstract `x` (the token "x.M()"); a method call on an abstract value has
+//     read through a pointer ("<nil-deref>" if it is nil) and nested opaque
+//     calls as tokens ("x.M(a)" on an abstract `x`, "f(a)", "T(f(a))"); a
+//     method call on an abstract value has
 //     the receiver's token as its first trace argument;
+//   - in symbolic mode a store into an abstract value (`x.f = v`, `x[i] = v`)
+//     is the trace entry ("x.f =", [v]) and `append` on a slice of abstract
+//     type is an opaque call; `var x T` of a translated struct type is its
+//     zero value;
 //   - the ignore entry "defer func" drops a deferred closure (pool returns,
 //     error annotation that keeps nil-ness);
 //   - []error literals, append on them and errors.Join are lists of optional
@@ -335,7 +340,7 @@ func (t *translator) leanTypeC(ty types.Type) string {
 }
 
 func sanitize(s string) string {
-	r := strings.NewReplacer(".", "_", "/", "_", "-", "_", "*", "", "(", "", ")", "", "[", "_", "]", "_", " ", "")
+	r := strings.NewReplacer(".", "_", "/", "_", "-", "_", "*", "", "(", "", ")", "", "[", "_", "]", "_", " ", "", ":", "_")
 	return r.Replace(s)
 }
 
@@ -970,7 +975,11 @@ func (c *fctx) call(x *ast.CallExpr) ex {
 	}
 	// builtins
 	if id, ok := x.Fun.(*ast.Ident); ok {
-		if _, isB := c.p.info.Uses[id].(*types.Builtin); isB {
+		_, isB := c.p.info.Uses[id].(*types.Builtin)
+		if isB && id.Name == "append" && c.t.symbolic && c.t.abstract(c.typeOf(x)) {
+			isB = false // append on a slice of abstract type: an opaque call
+		}
+		if isB {
 			switch id.Name {
 			case "append":
 				sl, ok := c.typeOf(x.Args[0]).Underlying().(*types.Slice)
@@ -1142,14 +1151,9 @@ func (c *fctx) traceArg(a ast.Expr) (code string) {
 	default:
 		return code
 	}
-	if call, ok := a.(*ast.CallExpr); ok && c.t.symbolic && len(call.Args) == 0 {
-		// x.M() on an abstract value x, as an argument: the token "x.M()"
-		if se, ok := call.Fun.(*ast.SelectorExpr); ok {
-			if sel := c.p.info.Selections[se]; sel != nil && sel.Kind() == types.MethodVal && c.t.abstract(sel.Recv()) {
-				if r := c.traceArg(se.X); r != "\"_\"" {
-					return fmt.Sprintf("(%s ++ %q)", r, "."+se.Sel.Name+"()")
-				}
-			}
+	if call, ok := a.(*ast.CallExpr); ok && c.t.symbolic {
+		if r := c.symCall(call); r != "" {
+			return r
 		}
 	}
 	// Do not let a nested opaque call allocate parameters from here.
@@ -1166,6 +1170,47 @@ func (c *fctx) traceArg(a ast.Expr) (code string) {
 		return fmt.Sprintf("(match %s with | some v => "+render+" | none => \"<nil-deref>\")", e.code, "v")
 	}
 	return fmt.Sprintf(render, e.code)
+}
+
+// symCall renders an opaque call that occurs as a trace argument as a token:
+// "x.M(a,…)" for a method of an abstract value x, "f(a,…)" for a function that
+// is not translated, "T(…)" for a conversion of such a call ("" if a is none
+// of these; the arguments are rendered like trace arguments).
+func (c *fctx) symCall(call *ast.CallExpr) string {
+	args := func() string {
+		r := `"("`
+		for i, a := range call.Args {
+			if i > 0 {
+				r += ` ++ ","`
+			}
+			r += " ++ " + c.traceArg(a)
+		}
+		return r + ` ++ ")"`
+	}
+	if tv, ok := c.p.info.Types[call.Fun]; ok && tv.IsType() {
+		if in, ok := call.Args[0].(*ast.CallExpr); ok && len(call.Args) == 1 && c.symCall(in) != "" {
+			return fmt.Sprintf("(%q ++ %s)", c.show(call.Fun), args())
+		}
+		return ""
+	}
+	key, _ := c.calleeKey(call)
+	if _, translated := c.t.byDecl[key]; translated {
+		return ""
+	}
+	if se, ok := call.Fun.(*ast.SelectorExpr); ok {
+		if sel := c.p.info.Selections[se]; sel != nil && sel.Kind() == types.MethodVal {
+			if r := c.traceArg(se.X); c.t.abstract(sel.Recv()) && r != "\"_\"" {
+				return fmt.Sprintf("(%s ++ %q ++ %s)", r, "."+se.Sel.Name, args())
+			}
+			return ""
+		}
+	}
+	if id, ok := call.Fun.(*ast.Ident); ok {
+		if _, isB := c.p.info.Uses[id].(*types.Builtin); isB {
+			return ""
+		}
+	}
+	return fmt.Sprintf("(%q ++ %s)", c.show(call.Fun), args())
 }
 
 // forget drops the memo entries of opaque parameters that were rolled back.
@@ -1451,6 +1496,10 @@ func (c *fctx) zero(t types.Type) string {
 		return "\"\""
 	case strings.HasPrefix(lt, "(Option"):
 		return "none"
+	case strings.HasPrefix(lt, "S_"):
+		if st, ok := t.Underlying().(*types.Struct); ok {
+			return c.structLit(&ast.CompositeLit{}, st, lt).code
+		}
 	}
 	fail("zero value of %s", t)
 	return ""
@@ -1597,6 +1646,27 @@ func (c *fctx) assign(lhs ast.Expr, e ex, rest []ast.Stmt, _ ast.Expr) string {
 
 // assignCode emits `lhs := code` followed by k().
 func (c *fctx) assignCode(lhs ast.Expr, code string, k func() string) string {
+	if c.trace && c.t.symbolic {
+		// a store into an abstract value (x.f = v, x[i] = v): a trace entry
+		var base ast.Expr
+		switch l := lhs.(type) {
+		case *ast.SelectorExpr:
+			base = l.X
+		case *ast.IndexExpr:
+			base = l.X
+		}
+		if base != nil && c.t.abstract(c.typeOf(base)) {
+			v := code
+			switch lt := c.t.leanType(c.typeOf(lhs)); {
+			case lt == "String":
+			case lt == "Int" || lt == "Bool" || lt == "(Option String)":
+				v = "(toString " + code + ")"
+			default:
+				v = "\"_\""
+			}
+			return fmt.Sprintf("let tr := tr ++ [(%q, [%s])]\n", c.show(lhs)+" =", v) + k()
+		}
+	}
 	switch l := lhs.(type) {
 	case *ast.Ident:
 		if l.Name == "_" {
